@@ -328,33 +328,67 @@ def run(repo, rep, tier):
         for sv in sorted(vs):
             for pt in (protos['Protocol.SMSG_PUBLIC_KEY'], protos['Protocol.MSG_KEXINIT'], 99):
                 env = dict(protos)
-                env.update({'sshv': sv, 'packet_type': pt, 'err': None, 'err_pair': None})
-                track_block(rep, n.orelse, env, ('err', 'err_pair'))
+                env.update({'sshv': sv, 'packet_type': pt, 'err': None, 'payload': b'x'})
+                from sa.listinterp import Interp as _I2b
+                from sa.abseval import Unknown as _U2b
+                try:
+                    fin_ = _I2b().run(n.orelse, env)
+                except _U2b as ex:
+                    raise AnalysisError('message-type test of audit() cannot be interpreted: %s' % ex)
+                if len(fin_) != 1 or fin_[0].get('<forks>'):
+                    raise AnalysisError('message-type test of audit() depends on a condition the analysis does not model: %s' % [f_.get('<forks>') for f_ in fin_][:1])
+                rep.evals()
                 expected = protos['Protocol.SMSG_PUBLIC_KEY'] if sv == 1 else protos['Protocol.MSG_KEXINIT']
                 want_err = pt != expected
-                got_err = env['err'] is not None
+                got_err = fin_[0].get('err') is not None
                 rep.check('incomplete', 'sshv=%s packet_type=%s: error recorded iff wrong type' % (sv, pt), want_err == got_err, n,
                           'with protocol %s a first packet of type %s %s' % (sv, pt, 'is accepted as the algorithm message' if want_err else 'is rejected although it is the expected message'))
     from props import _truncation
     _truncation.check_truncation(repo, rep, 'incomplete')
     # SSH-1 parse: is it protected?  (crash clause belongs to C09; recorded as a note here)
     # ---- rule 5: policy mapping ----------------------------------------------------------------------
+    # the statements of audit() from the evaluate_policy call to the end of its block are interpreted with the policy passing / failing: the status variable
+    # audit() returns must end up GOOD / FAILURE (conditional expression, if/else, temporary + negated test alike)
+    from sa.listinterp import Interp as _I2
+    from sa.abseval import Unknown as _U2, Opaque as _O2
     found = 0
+    retnames = {x for x in returned_name(au) if x}
     for n in walk_no_nested(au):
-        if isinstance(n, ast.Assign) and isinstance(n.value, ast.IfExp) and isinstance(n.value.test, ast.Call) and call_name(n.value.test) == 'evaluate_policy':
+        if isinstance(n, ast.Call) and call_name(n) == 'evaluate_policy':
+            st_ = n
+            while not isinstance(st_, ast.stmt):
+                st_ = st_._parent
+            blk = None
+            for fld in ('body', 'orelse', 'finalbody'):
+                b_ = getattr(st_._parent, fld, None)
+                if isinstance(b_, list) and st_ in b_:
+                    blk = b_[b_.index(st_):]
+            if blk is None:
+                continue
             found += 1
-            ok = unparse(n.value.body) == 'exitcodes.GOOD' and unparse(n.value.orelse) == 'exitcodes.FAILURE'
-            rep.check('policy-map', 'policy verdict mapped passed->GOOD, failed->FAILURE', ok, n, 'policy verdict mapping is %s / %s' % (unparse(n.value.body), unparse(n.value.orelse)))
-            tgt = unparse(n.targets[0])
-            rep.check('policy-map', 'mapped value is what audit returns', tgt in returned_name(au) or any(isinstance(r, ast.Return) and r.value is not None and unparse(r.value) == tgt for r in walk_no_nested(au)), n, 'mapped verdict not returned')
-    if found == 0:
-        # accept an if/else form
-        for n in walk_no_nested(au):
-            if isinstance(n, ast.If) and isinstance(n.test, ast.Call) and call_name(n.test) == 'evaluate_policy':
-                found += 1
-                a = [unparse(s.value) for s in n.body if isinstance(s, ast.Assign)]
-                b = [unparse(s.value) for s in n.orelse if isinstance(s, ast.Assign)]
-                rep.check('policy-map', 'policy verdict mapped passed->GOOD, failed->FAILURE (if/else form)', a == ['exitcodes.GOOD'] and b == ['exitcodes.FAILURE'], n, 'policy verdict mapping wrong')
+            got = {}
+            for passed in (True, False):
+                def hook_ep(call, e, interp, passed=passed):
+                    if call_name(call) == 'evaluate_policy':
+                        return (True, passed)
+                    return None
+                env = dict(cenv)
+                try:
+                    fin = _I2(call_hook=hook_ep).run(blk, env)
+                except _U2 as ex:
+                    raise AnalysisError('policy verdict mapping in audit() cannot be interpreted: %s' % ex)
+                vals = set()
+                for fe in fin:
+                    if fe.get('<outcome>') == 'return':
+                        vals.add(repr(fe.get('<return>')))
+                    else:
+                        for nm in retnames:
+                            if nm in fe and not isinstance(fe[nm], _O2):
+                                vals.add(repr(fe[nm]))
+                got[passed] = vals
+            rep.evals(2)
+            ok = got == {True: {repr(codes['GOOD'])}, False: {repr(codes['FAILURE'])}}
+            rep.check('policy-map', 'policy verdict mapped passed->GOOD, failed->FAILURE', ok, st_, 'policy verdict mapping is passed -> %s, failed -> %s' % (sorted(got[True]), sorted(got[False])), stmt='policy verdict mapping')
     rep.floor('policy-map', 'policy verdict mapping site', found, 1)
     ep = repo.func('ssh_audit', 'evaluate_policy')
     rep.saw(ep)
